@@ -35,6 +35,8 @@ class Explorer:
         self.failures = []      # (block, message, bytes consumed)
         self.returns = []       # (bytes consumed, value of _0, block)
         self.unbounded = []
+        self.blind = []         # (block, callee) where a branch is decided by the result of a call the interpreter does not model
+        self._opaque = {}       # local -> callee whose (unmodelled) result it holds
         self.steps = 0
 
     # ------------------------------------------------------------------ values
@@ -224,6 +226,36 @@ class Explorer:
             return ("tuple", vals)
         return TOP
 
+    def _blind_source(self, bb):
+        """Name of an unmodelled call whose result decides the switch at bb (through discriminant reads / moves), if any."""
+        b = self.b
+        t = b.term(bb)
+        if t["op"].get("k") == "const":
+            return None
+        seen, work = set(), [t["op"]["pl"]["l"]]
+        while work:
+            l = work.pop()
+            if l in seen:
+                continue
+            seen.add(l)
+            for d in b.defs.get(l, []):
+                if d[0] == "call":
+                    nm = callee_name(d[2]) or ""
+                    if not re.search(r"(Iterator::next|Into::into|From::from|Try::branch|FromResidual::from_residual)$", nm):
+                        return nm
+                    for o in d[2]["ops"]:
+                        if o.get("k") != "const":
+                            work.append(o["pl"]["l"])
+                elif d[0] == "stmt":
+                    rv = d[3]["rv"]
+                    for key in ("op", "a", "b"):
+                        o = rv.get(key)
+                        if isinstance(o, dict) and o.get("k") in ("move", "copy"):
+                            work.append(o["pl"]["l"])
+                    if rv.get("pl"):
+                        work.append(rv["pl"]["l"])
+        return None
+
     # ------------------------------------------------------------------ exploration
     def run(self, args=None):
         """args: optional {local: abstract value} giving (some of) the parameters a value."""
@@ -266,6 +298,10 @@ class Explorer:
                     stack.append((t["t"], env, nbytes))
             elif k == "switch":
                 v = self.operand(env, t["op"])
+                if v == TOP:
+                    src_ = self._blind_source(bb)
+                    if src_:
+                        self.blind.append((bb, src_))
                 listed = [x for x, _ in t["targets"]]
                 if isinstance(v, tuple) and v[0] == "bool" and v[1] is not None:
                     v = iv(int(v[1]), int(v[1]))
